@@ -150,6 +150,7 @@ def _run(ctx):
     ex = B.setup_examples(ctx)
     B.make_failing_inputs(ex)
     # texture spellings: soil files with one id per spelling; every case through the real Input/Hydro in-process
+    B.make_variant_inputs(ex)
     tcases = B.make_texture_inputs(ex, rng, 120 if ctx.thorough else 30)
     before = B.tree_snapshot(ex)
     bf = os.path.join(ex, "TX_batch.txt")
@@ -158,7 +159,8 @@ def _run(ctx):
             f.write("%s resultfolder=TX/l%d\n" % (tc["line"], i))
     tobs = _texture_harness(vh, ex, bf, len(tcases))
     _cache.update(tcases=tcases, tobs=tobs)
-    pool = dict(B.VALID); pool.update(B.FAILING); pool.update(B.TEXTURE_FAILING); pool.update(B.TEXTURE_VALID)
+    pool = dict(B.VALID); pool.update(B.FAILING); pool.update(B.TEXTURE_FAILING); pool.update(B.TEXTURE_VALID); pool.update(B.VARIANTS)
+    variants = list(B.VARIANTS)          # every listed class under the other configurations (ex3, rue, zuc, bulk, MUN)
     vkeys = list(B.VALID); rng.shuffle(vkeys)
     valid = vkeys[:(8 if ctx.thorough else 4)]
     if "pred" not in valid:
@@ -167,7 +169,7 @@ def _run(ctx):
     classes = list(B.FAILING) + list(B.TEXTURE_FAILING)
     solo = {}
     jobs = [lambda k=k: (k, B.run_batch(binary, ex, "solo_" + re.sub(r"\W", "_", k), [k], pool, 1, 4, timeout=TIMEOUT))
-            for k in valid + classes]
+            for k in valid + classes + variants]
     for k, e in B.parallel(jobs, 6):
         solo[k] = e
     mixed, jobs = [], []
@@ -181,6 +183,16 @@ def _run(ctx):
                     batch.append(vs[0])                      # a repeated valid line
                 jobs.append(lambda cl=cl, c=c, batch=batch, pos=pos: B.run_batch(
                     binary, ex, "m_%s_p%d_c%d" % (re.sub(r"\W", "_", cl), pos, c), batch, pool, c, rng.choice((1, 4, 16)), timeout=TIMEOUT))
+    for v in variants:
+        for c in (concs if ctx.thorough else (rng.choice(concs),)):
+            vs = rng.sample(valid, 3)
+            pos = rng.randint(0, 3)
+            batch = vs[:pos] + [v] + vs[pos:]
+            jobs.append(lambda v=v, c=c, batch=batch, pos=pos: B.run_batch(
+                binary, ex, "v_%s_p%d_c%d" % (re.sub(r"\W", "_", v), pos, c), batch, pool, c, rng.choice((1, 4, 16)), timeout=TIMEOUT))
+    batch = variants + valid
+    rng.shuffle(batch)
+    jobs.append(lambda batch=batch: B.run_batch(binary, ex, "allvar_c8", batch, pool, 8, 4, timeout=TIMEOUT))
     for c in concs + ((3, 16) if ctx.thorough else ()):
         batch = classes + valid + [valid[0]]
         rng.shuffle(batch)
@@ -201,7 +213,7 @@ def _run(ctx):
             _cache["race_build_error"] = str(e)[-600:]
     mixed = B.parallel(jobs, 6)
     after = B.tree_snapshot(ex)
-    _cache.update(solo=solo, mixed=mixed, pool=pool, valid=valid, classes=classes, ex=ex, new_files=sorted(after - before))
+    _cache.update(solo=solo, mixed=mixed, pool=pool, valid=valid, classes=classes + variants, ex=ex, new_files=sorted(after - before))
     return _cache
 
 
